@@ -44,7 +44,7 @@ ASSUMPTIONS = ['TIF-marked LIS files whose first record is exactly 276 bytes sha
 SHARDS = {'quick': 4, 'thorough': 16}
 REQUIRED_CLASSES = {'valid-RP66V1': 1, 'valid-LIS': 1, 'valid-LISt': 1, 'valid-LIStr': 1, 'valid-LAS1.2': 1, 'valid-LAS2.0': 1, 'valid-BIT': 1,
                     'valid-DAT': 1, 'arbitrary-truncation': 1, 'arbitrary-mutation': 1, 'arbitrary-splice': 1, 'arbitrary-random': 1, 'arbitrary-text-token': 1,
-                    'valid-DAT-first-row-beyond-4KiB': 1, 'valid-file>8KiB': 1, 'arbitrary-ebcdic': 1, 'valid-BIT-20-channels': 1, 'valid-LIS-over-100-even-records-then-odd': 1}
+                    'valid-DAT-first-row-beyond-4KiB': 1, 'valid-file>8KiB': 1, 'arbitrary-ebcdic': 1, 'valid-BIT-20-channels': 1, 'valid-LIS-over-100-even-records-then-odd': 1, 'valid-file-from-path': 1}
 
 
 class Timeout(Exception):
@@ -230,6 +230,25 @@ def check_valid(case, cc):
     if res != exp:
         cc.dev('valid-file-identified-as-own-format', 'misidentified:%s-as-%s' % (exp, res or 'nothing'),
                '%s identified as %r, expected %r; head %s' % (what, res, exp, data[:32].hex()))
+        return
+    # the same bytes on disk, under a name that says nothing - or something else - about the format (one case in four)
+    if (len(data) + data[len(data) // 2]) % 4 == 0:
+        import tempfile
+        from TotalDepth.util import bin_file_type
+        ext = ['.bin', '', '.las', '.dlis', '.LIS', '.dat', '.bit', '.txt'][(len(data) // 4) % 8]
+        with tempfile.TemporaryDirectory(prefix='vt_c20_') as d:
+            path = os.path.join(d, 'file' + ext)
+            with open(path, 'wb') as f:
+                f.write(data)
+            try:
+                res2 = bin_file_type.binary_file_type_from_path(path)
+            except Exception as err:  # noqa
+                cc.unexpected(err)
+                return
+        cc.cls('valid-file-from-path')
+        if res2 != exp:
+            cc.dev('valid-file-identified-as-own-format', 'from-path-misidentified:%s-as-%s' % (exp, res2 or 'nothing'),
+                   '%s stored as %r: binary_file_type_from_path gives %r, the file object gave %r' % (what, 'file' + ext, res2, res))
 
 
 # -------------------------------------------------------------------------------------------------
